@@ -147,12 +147,12 @@ Colliding(m, c)     == Blockers(m, Target(m, c)) # {}
 Common(m, c)        == ~ThroughSymref(m, c) /\ ~Colliding(m, c)
 
 \* ------------------------------------------------------------- universes (cfg files cannot hold <<>>)
-HEAD == <<"HEAD">>
-A    == <<"refs", "heads", "a">>
-AB   == <<"refs", "heads", "a", "b">>
-B    == <<"refs", "heads", "b">>
-TT   == <<"refs", "tags", "t">>
-Names3 == {HEAD, A, AB}
-Names4 == {HEAD, A, AB, TT}
-Names5 == {HEAD, A, AB, B, TT}
+nHEAD == <<"HEAD">>
+nA    == <<"refs", "heads", "a">>
+nAB   == <<"refs", "heads", "a", "b">>
+nB    == <<"refs", "heads", "b">>
+nT    == <<"refs", "tags", "t">>
+Names3 == {nHEAD, nA, nAB}
+Names4 == {nHEAD, nA, nAB, nT}
+Names5 == {nHEAD, nA, nAB, nB, nT}
 =============================================================================
